@@ -16,6 +16,9 @@ RULES = {
                 'container\'s own accessor and `len` is the container\'s own length',
     'API.slice-order': 'try_as_slice returns the elements in logical order',
     'API.nobranch': 'generic algorithms do not branch on the backend name',
+    'API.write': 'a backend writes slot i of an output buffer through the container\'s own indexed '
+                 'mutable accessor with the index unchanged (never by raw pointer arithmetic, which '
+                 'ignores strides and ring-buffer offsets)',
 }
 
 
@@ -87,3 +90,48 @@ def _skeleton(fn, body, lead):
     if len(allocs) != 1:
         return False, 'buffer is not allocated with `O::uninit`'
     return True, 'uninit(self.len()) -> %s(%s, buffer) -> assume_init' % (name_to, args)
+
+
+WRITE_ACCESSOR = {   # container head -> its own unchecked / checked mutable accessor
+    'Vec': 'get_unchecked_mut', '[T]': 'get_unchecked_mut', '[T; N]': 'get_unchecked_mut',
+    'VecDeque': 'get_mut', 'ndarray': 'uget_mut',
+}
+
+
+def check_writes(run, F, head_of):
+    """uset / uget_mut of every backend (tea-core/src/backends_impl)"""
+    import dtree
+    import nullrules as N
+    run.rule('API.write', RULES['API.write'])
+    n = 0
+    for fn in F.fns:
+        if fn.kind != 'AssocFn' or not fn.impl_trait or not fn.file.startswith('tea-core/src/backends_impl') \
+                or fn.name not in ('uset', 'uget_mut'):
+            continue
+        h = head_of(fn.impl_self)
+        key = '%s::%s for %s' % (strip_generics(fn.impl_trait).split('::')[-1], fn.name, N._short(fn.impl_self)[:50])
+        t = N.tbl(fn)
+        n += 1
+        if h == 'ChunkedArray':
+            ok = all(l == 'PANIC' for cs, l, ef in t)
+            run.ob('API.write', fn, key, ok, fn.loc(), 'polars buffers are not written by index (unimplemented!)', trivial=True)
+            continue
+        acc_ = WRITE_ACCESSOR.get(h)
+        params = [b['name'] for p in fn.params for b in _pat_binds(p)]
+        idx = params[1] if len(params) > 1 else '?'
+        if fn.name == 'uset':
+            val = params[2] if len(params) > 2 else '?'
+            want = N.T(([], '()', ['self.%s(%s).write(%s)' % (acc_, idx, val)]))
+        else:
+            want = N.T(([], 'self.%s(%s)' % (acc_, idx), []))
+        ok = acc_ is not None and t == want
+        # the accessor is the container's own (not this trait method again), and no raw pointers
+        calls = [x for x in walk(fn.hir) if x.get('k') == 'MethodCall' and x['method'] == acc_]
+        own = bool(calls) and not any(strip_generics(x.get('callee', '')).split('::')[-2:-1] in (['Vec1Mut'], ['UninitVec'])
+                                      for x in calls)
+        raw = [x for x in walk(fn.hir) if x.get('k') == 'MethodCall' and
+               x['method'] in ('as_mut_ptr', 'as_ptr', 'add', 'offset', 'sub', 'wrapping_add') and
+               ('*mut' in (x.get('ty') or '') or '*const' in (x.get('ty') or '') or x['method'].startswith('as_'))]
+        run.ob('API.write', fn, key, ok and own and not raw, fn.loc(),
+               'table %s%s' % (dtree.show(t), '; raw pointer arithmetic: %s' % [src(x)[:40] for x in raw] if raw else ''))
+    return n
